@@ -2,7 +2,8 @@
 from ..ir import AnalysisBroken, strip_targs, qmatch
 from ..graph import Graph
 from ..expr import access_path, path_str, held_locks, reaching_defs, norm_cond, origins, leaves, defs_in_node
-from .common import strip_casts, short, comparison, same_class_inline, loops_over, loop_visits_every_element
+from .common import strip_casts, short, comparison, same_class_inline, loops_over, loop_visits_every_element, gated_by, pointer_pins
+from ..symb import feasible_reach
 from . import c04, c08
 
 UNITS = ['sdk/src/logs/logger.cc', 'sdk/src/logs/read_write_log_record.cc', 'sdk/src/logs/multi_recordable.cc',
@@ -138,9 +139,10 @@ def rule_r3(ck, prog, rule='C13.R3'):
             return (lab[2] if pol else not lab[2]) is True
         return False
     effects = [p for p in g.points if p.n is not None and p.n['k'] == 'call' and p.n.get('virt') and 'Recordable::' in strip_targs(p.n.get('c', ''))] + onemit
-    ok = all(g.must_pass_edge(p, enabled_edge) for p in effects)
+    ok = gated_by(g, effects, lambda ff, cn: strip_targs(cn.get('c', '')).endswith('LoggerConfig::IsEnabled'))[0]
     ck.verdict(ok, rule, f, 'enabled-gate', effects[0].n, 'everything behind the enabled edge' if ok else 'a disabled logger can still emit')
-    ok = all(g.must_pass_edge(p, nonnull_edge) for p in effects)
+    # (null gate: the record pointer pinned to null)
+    ok = feasible_reach(g, [g.entry], effects, pins=pointer_pins(f, lambda ap: ap == ('param:' + f.params[0]['name'],), False)) is None
     ck.verdict(ok, rule, f, 'null-gate', effects[0].n, 'everything behind the non-null record edge' if ok else 'a null record is dereferenced or emitted')
     for s in ('SetResource', 'SetInstrumentationScope'):
         pts = [p for p in g.points if p.n is not None and p.n['k'] == 'call' and p.n.get('virt') and strip_targs(p.n.get('c', '')).rsplit('::', 1)[-1] == s]
